@@ -233,3 +233,4 @@ def run(ctx) -> None:
     cast(ctx)
     slicer(ctx)
     tabular(ctx)
+    shared.argname_scope(ctx, ('forml.io._input', 'forml.io.layout._internal'), floor=2)
